@@ -44,16 +44,93 @@ func ruleR17f(c *Ctx) {
 		c.undecided(rule, "anchor:UsingOffset-signature", fn.Pos(), "unexpected signature")
 		return
 	}
+	// the functions the paginator is made of: UsingOffset and the helpers of the package it calls (window, previous,
+	// next), each with its own copy of the query (a parameter of the query type, spilled or not)
+	isQueryType := func(t types.Type) bool {
+		n := namedOf(t)
+		return n != nil && n.Origin().Obj().Name() == "OffsetPaginatedQuery"
+	}
+	parts := []*ssa.Function{fn}
+	seenPart := map[*ssa.Function]bool{fn: true}
+	for i := 0; i < len(parts) && i < 12; i++ {
+		allCalls(parts[i], func(ci ssa.CallInstruction) {
+			g := staticCallee(ci)
+			if g == nil || seenPart[g] || len(g.Blocks) == 0 || fnPkgPath(origin(g)) != fnPkgPath(origin(fn)) {
+				return
+			}
+			for _, p := range g.Params {
+				if isQueryType(p.Type()) {
+					seenPart[g] = true
+					parts = append(parts, g)
+					return
+				}
+			}
+		})
+	}
+	queryOf := map[ssa.Value]bool{} // values that ARE the query (parameter, or the local it is spilled into)
+	for _, g := range parts {
+		for _, p := range g.Params {
+			if !isQueryType(p.Type()) {
+				continue
+			}
+			queryOf[p] = true
+			if p.Referrers() != nil {
+				for _, r := range *p.Referrers() {
+					if st, ok := r.(*ssa.Store); ok && st.Val == ssa.Value(p) {
+						if a, ok := st.Addr.(*ssa.Alloc); ok {
+							queryOf[a] = true
+						}
+					}
+				}
+			}
+		}
+	}
 	var q *ssa.Alloc
-	for _, r := range *fn.Params[2].Referrers() {
-		if st, ok := r.(*ssa.Store); ok && st.Val == ssa.Value(fn.Params[2]) {
-			q, _ = st.Addr.(*ssa.Alloc)
+	for v := range queryOf {
+		if a, ok := v.(*ssa.Alloc); ok && a.Parent() == fn {
+			q = a
 		}
 	}
 	if q == nil {
 		c.undecided(rule, "anchor:UsingOffset-query", fn.Pos(), "the query parameter is not spilled to a local")
 		return
 	}
+	// `fetched int` parameters bound to len(rows) at every call site
+	var isLenParamD func(p *ssa.Parameter, depth int) bool
+	isLenParamD = func(p *ssa.Parameter, depth int) bool {
+		if depth > 3 {
+			return false
+		}
+		idx := paramIndex(p)
+		n := 0
+		for _, site := range c.CallersOf(p.Parent()) {
+			if site.Parent() == nil || idx < 0 || idx >= len(site.Common().Args) {
+				continue
+			}
+			arg := site.Common().Args[idx]
+			// instantiation and promoted-method wrappers pass their own parameter on
+			if pp, ok := arg.(*ssa.Parameter); ok {
+				if len(c.CallersOf(pp.Parent())) == 0 && pp.Parent().Synthetic != "" {
+					continue // a wrapper nobody calls
+				}
+				if !isLenParamD(pp, depth+1) {
+					return false
+				}
+				n++
+				continue
+			}
+			n++
+			call, ok := arg.(*ssa.Call)
+			if !ok {
+				return false
+			}
+			if bi, ok := call.Call.Value.(*ssa.Builtin); !ok || bi.Name() != "len" {
+				return false
+			}
+		}
+		return n > 0
+	}
+	isLenParam := func(p *ssa.Parameter) bool { return isLenParamD(p, 0) }
 	var ivalE func(v ssa.Value, depth int, env map[*ssa.Parameter]aff) (aff, bool)
 	ival := func(v ssa.Value, depth int) (aff, bool) { return ivalE(v, depth, nil) }
 	ivalE = func(v ssa.Value, depth int, env map[*ssa.Parameter]aff) (aff, bool) {
@@ -66,7 +143,13 @@ func ruleR17f(c *Ctx) {
 			if a, ok := env[x]; ok {
 				return a, true
 			}
+			if isLenParam(x) {
+				return affSym("len(rows)"), true
+			}
 		case *ssa.Call:
+			if bi, ok := x.Call.Value.(*ssa.Builtin); ok && bi.Name() == "len" {
+				return affSym("len(rows)"), true
+			}
 			// a helper of the package computing an offset from the two fields (`previousOffset(offset, pageSize)`)
 			g := x.Call.StaticCallee()
 			if g == nil || fnPkgPath(origin(g)) != fnPkgPath(origin(fn)) || len(g.Blocks) == 0 || depth > 4 {
@@ -118,9 +201,13 @@ func ruleR17f(c *Ctx) {
 			}
 		case *ssa.UnOp:
 			if x.Op == token.MUL {
-				if f, base := anyFieldRead(x); f != nil && base == ssa.Value(q) {
+				if f, base := anyFieldRead(x); f != nil && queryOf[base] {
 					return affSym(f.Name()), true
 				}
+			}
+		case *ssa.Field:
+			if f, base := anyFieldRead(x); f != nil && queryOf[base] {
+				return affSym(f.Name()), true
 			}
 		case *ssa.Phi:
 			// max(x, 0): phi [x, 0] where the 0 edge comes from the true side of `x < 0`
@@ -153,35 +240,102 @@ func ruleR17f(c *Ctx) {
 	const (
 		bOffPos = 1 << iota
 		bMore
+		bPageNZ // query.PageSize != 0 (also keeps the two arrivals at the block that merges `PageSize != 0 && …` apart)
 	)
 	must := map[ssa.Instruction]uint64{}
+	var applyFact func(s uint64, x ssa.Value, val bool, depth int) uint64
+	applyFact = func(s uint64, x ssa.Value, val bool, depth int) uint64 {
+		if depth > 4 {
+			return s
+		}
+		switch bo := x.(type) {
+		case *ssa.UnOp:
+			if bo.Op == token.NOT {
+				return applyFact(s, bo.X, !val, depth+1)
+			}
+		case *ssa.Phi:
+			// `a && b` in value form: phi [false, b]; true means b held (and a, tested on the way)
+			if val {
+				var nonConst []ssa.Value
+				okShape := true
+				for _, e := range bo.Edges {
+					if cv, isC := constBool(e); isC {
+						if cv {
+							okShape = false
+						}
+						continue
+					}
+					nonConst = append(nonConst, e)
+				}
+				if okShape && len(nonConst) == 1 {
+					return applyFact(s, nonConst[0], true, depth+1)
+				}
+			}
+		case *ssa.BinOp:
+			l, okl := ival(bo.X, 0)
+			r, okr := ival(bo.Y, 0)
+			if !okl || !okr {
+				return s
+			}
+			off, ps, ln := affSym("Offset"), affSym("PageSize"), affSym("len(rows)")
+			set := func(bit uint64, on bool) {
+				if on {
+					s |= bit
+				} else {
+					s &^= bit
+				}
+			}
+			switch {
+			case l.equal(off) && r.isZero():
+				switch bo.Op {
+				case token.GTR, token.NEQ:
+					set(bOffPos, val)
+				case token.EQL, token.LEQ:
+					set(bOffPos, !val)
+				}
+			case l.equal(ln) && r.equal(ps):
+				switch bo.Op {
+				case token.GTR:
+					set(bMore, val)
+				case token.LEQ:
+					set(bMore, !val)
+				}
+			case l.equal(ps) && r.equal(ln):
+				switch bo.Op {
+				case token.LSS:
+					set(bMore, val)
+				case token.GEQ:
+					set(bMore, !val)
+				}
+			}
+		}
+		return s
+	}
 	pr := &PathRule{
 		Edge: func(pc *PathCtx, s uint64, from *ssa.BasicBlock, si int) (uint64, bool) {
 			for _, f := range pc.edgeFacts(from, si) {
 				b, isB := constBool(f.Y)
-				bo, isBo := f.X.(*ssa.BinOp)
-				if !isB || !isBo || bo.Op != token.GTR {
-					continue
-				}
-				val := b == f.Eq
-				l, okl := ival(bo.X, 0)
-				r, okr := ival(bo.Y, 0)
-				if okl && okr && l.equal(affSym("Offset")) && r.isZero() {
-					if val {
-						s |= bOffPos
-					} else {
-						s &^= bOffPos
-					}
-				}
-				if call, ok := bo.X.(*ssa.Call); ok && okr && r.equal(affSym("PageSize")) {
-					if bi, ok := call.Call.Value.(*ssa.Builtin); ok && bi.Name() == "len" {
-						if val {
-							s |= bMore
+				if !isB {
+					// an equality fact `x == y`: query.Offset == 0
+					l, okl := ival(f.X, 0)
+					r, okr := ival(f.Y, 0)
+					if okl && okr && l.equal(affSym("Offset")) && r.isZero() {
+						if f.Eq {
+							s &^= bOffPos
 						} else {
-							s &^= bMore
+							s |= bOffPos
 						}
 					}
+					if okl && okr && l.equal(affSym("PageSize")) && r.isZero() {
+						if f.Eq {
+							s &^= bPageNZ
+						} else {
+							s |= bPageNZ
+						}
+					}
+					continue
 				}
+				s = applyFact(s, f.X, b == f.Eq, 0)
 			}
 			return s, true
 		},
@@ -194,11 +348,37 @@ func ruleR17f(c *Ctx) {
 			return s
 		},
 	}
-	c.RunPaths(fn, 0, pr)
+	for _, g := range parts {
+		c.RunPaths(g, 0, pr)
+	}
+	// a guard established by the caller before it calls a part holds inside that part
+	guardOf := func(ins ssa.Instruction) uint64 {
+		bits := must[ins]
+		g := ins.Parent()
+		if g == fn {
+			return bits
+		}
+		all := ^uint64(0)
+		n := 0
+		for _, site := range c.CallersOf(g) {
+			if si, ok := site.(ssa.Instruction); ok && site.Parent() != nil && seenPart[site.Parent()] {
+				n++
+				all &= must[si]
+			}
+		}
+		if n > 0 {
+			bits |= all
+		}
+		return bits
+	}
 
 	// the fetched window
 	nWin := 0
-	for _, b := range fn.Blocks {
+	var allBlocksOfParts []*ssa.BasicBlock
+	for _, g := range parts {
+		allBlocksOfParts = append(allBlocksOfParts, g.Blocks...)
+	}
+	for _, b := range allBlocksOfParts {
 		for _, ins := range b.Instrs {
 			call, ok := ins.(*ssa.Call)
 			if !ok || len(call.Call.Args) < 2 {
@@ -222,10 +402,10 @@ func ruleR17f(c *Ctx) {
 	}
 	qType := q.Type().(*types.Pointer).Elem()
 	nCopies := 0
-	for _, b := range fn.Blocks {
+	for _, b := range allBlocksOfParts {
 		for _, ins := range b.Instrs {
 			cp, ok := ins.(*ssa.Alloc)
-			if !ok || cp == q || !types.Identical(cp.Type().(*types.Pointer).Elem(), qType) {
+			if !ok || queryOf[cp] || !types.Identical(cp.Type().(*types.Pointer).Elem(), qType) {
 				continue
 			}
 			var offStore *ssa.Store
@@ -233,7 +413,10 @@ func ruleR17f(c *Ctx) {
 			for _, r := range *cp.Referrers() {
 				switch u := r.(type) {
 				case *ssa.Store:
-					if l, ok := u.Val.(*ssa.UnOp); ok && u.Addr == ssa.Value(cp) && l.Op == token.MUL && l.X == ssa.Value(q) {
+					if l, ok := u.Val.(*ssa.UnOp); ok && u.Addr == ssa.Value(cp) && l.Op == token.MUL && queryOf[l.X] {
+						copied = true
+					}
+					if u.Addr == ssa.Value(cp) && queryOf[u.Val] {
 						copied = true
 					}
 				case *ssa.FieldAddr:
@@ -262,7 +445,7 @@ func ruleR17f(c *Ctx) {
 			}
 			next := affSym("Offset").plus(affSym("PageSize"), 1)
 			prev := affSym("max0(" + affSym("Offset").plus(affSym("PageSize"), -1).String() + ")")
-			bits := must[offStore]
+			bits := guardOf(offStore)
 			switch {
 			case a.equal(next):
 				c.check(bits&bMore != 0, rule, key, offStore.Pos(), "next: Offset + PageSize, under len(rows) > PageSize", "the next cursor is built on a path that has not established that a row beyond the page was fetched: the last page announces a next one (or none is announced when there is one)")
